@@ -71,6 +71,18 @@ DIRECTED_SOUND += [(d["key"], d["text"]) for d in tdgen.diamond_cases()]
 # def / defset (the local wins: no type diagnostic); named template arguments that bind every argument without default
 DIRECTED_SOUND += [(d["key"], d["files"]) for d in tdgen.forward_class_cases() + tdgen.shadowed_def_cases()]
 DIRECTED_SOUND += tdgen.named_argument_cases()
+# well-formed: an include statement nested in a block body (let-in, foreach, if, defset): the quick tier's random
+# generator keeps includes at top level (include-in-block is a thorough-tier feature), so the shapes are pinned here
+# (added after mutation wave 5: C13-mut7 made list_includes top-level only)
+_NESTED_INC = {
+    "let": 'class B { int v = 0; }\nlet v = 1 in {\n  include "inc.td"\n}\ndef m : A;\n',
+    "foreach": 'class B { int v = 0; }\nforeach i = [1] in {\n  include "inc.td"\n}\ndef m : A;\n',
+    "if": 'class B { int v = 0; }\nif 1 then {\n  include "inc.td"\n}\ndef m : B;\n',
+    "defset": 'class B { int v = 0; }\ndefset list<B> S = {\n  include "inc.td"\n}\ndef m : A;\n',
+    "let-foreach": 'class B { int v = 0; }\nlet v = 2 in {\n  foreach i = [1, 2] in {\n    include "inc.td"\n  }\n}\ndef m : A;\n',
+}
+DIRECTED_SOUND += [("nested-include-" + k, {"/w/main.td": t, "/w/inc.td": "class A : B;\ndef a0 : A;\n"})
+                   for k, t in sorted(_NESTED_INC.items())]
 DIRECTED_COMPLETE = [
     ("classvalue-undefined-class", "def d { int x = Foo<1>.y; }", [16, 19], "ClassNotFound"),
 ]
@@ -220,6 +232,21 @@ def run(ctx):
             ctx.violation("fault %s in %r is not reported" % (k, t),
                           {"property": "C13", "part": "complete", "workspace": {"files": {"/w/main.td": t}, "root": "/w/main.td"},
                            "directed": k, "site": site})
+            found = True
+    # one fault inside a file that is included from a block body: reported in THAT file at the seeded site, nothing elsewhere
+    nws, nsites = [], []
+    for k, t in sorted(_NESTED_INC.items()):
+        for fk, inc, site in (("syntax-error", "class A : B;\ndef a0 : A\nclass Z;\n", (23, 28)),
+                              ("undefined-class", "class A : B;\ndef a0 : Nope;\n", (22, 26))):
+            nws.append({"files": {"/w/main.td": t, "/w/inc.td": inc}, "root": "/w/main.td"})
+            nsites.append((k, fk, site))
+    for (k, fk, site), w, o in zip(nsites, nws, sl.impl(bindir, nws, offsets="none")):
+        ds = [] if o.get("panic") else o["diagnostics"].get("/w/inc.td", [])
+        hit = [d for d in ds if d[0] <= site[1] and site[0] <= max(d[1], d[0] + 1)]
+        if o.get("panic") or not hit or o["diagnostics"].get("/w/main.td"):
+            ctx.violation("%s in a file included from a %s block: diagnostics %r" % (fk, k, o.get("diagnostics")),
+                          {"property": "C13", "part": "complete", "workspace": w, "directed": "nested-include-" + k,
+                           "site": ["/w/inc.td"] + list(site)})
             found = True
     # operands of an unknown (not inferable) type in every operator / operand position: no diagnostic
     unk = tdgen.unknown_operand_cases()
